@@ -197,6 +197,88 @@ func (p *Program) runScan(sc *Scan) *UnitResult {
 		// one evaluation can leave behind for another evaluation in the same process, outside the objects it was given,
 		// lives in such a variable; a new one needs a disposition (immutable after init / guarded by a lock / ...).
 		have := map[string]bool{}
+		// A variable needs a disposition only if it can change after the package is initialised: some function other
+		// than the package initialiser stores to it (or to a part of it), updates a map or an element reached from it,
+		// or hands its address to a call (atomics, pools, mutexes are changed through methods on their address). A
+		// table that is only read after initialisation is not state.
+		mutable := map[string]string{}
+		var rootGlobal func(v ssa.Value, viaLoad bool) (*ssa.Global, bool)
+		rootGlobal = func(v ssa.Value, viaLoad bool) (*ssa.Global, bool) {
+			switch x := v.(type) {
+			case *ssa.Global:
+				return x, viaLoad
+			case *ssa.FieldAddr:
+				return rootGlobal(x.X, viaLoad)
+			case *ssa.IndexAddr:
+				return rootGlobal(x.X, viaLoad)
+			case *ssa.Slice:
+				return rootGlobal(x.X, viaLoad)
+			case *ssa.UnOp:
+				if x.Op == token.MUL {
+					return rootGlobal(x.X, true)
+				}
+			}
+			return nil, false
+		}
+		for _, fn := range p.fnByKey {
+			if fn.Pkg == nil || fn.Pkg.Pkg.Path() != sc.Pkg {
+				continue
+			}
+			var visit func(f *ssa.Function)
+			visit = func(f *ssa.Function) {
+				isInit := f.Name() == "init" && f.Synthetic != ""
+				for _, b := range f.Blocks {
+					for _, in := range b.Instrs {
+						if isInit {
+							continue
+						}
+						switch x := in.(type) {
+						case *ssa.Store:
+							if g, _ := rootGlobal(x.Addr, false); g != nil && g.Pkg == fn.Pkg {
+								mutable[g.Name()] = "stored to in " + f.Name()
+							}
+						case *ssa.MapUpdate:
+							if g, _ := rootGlobal(x.Map, false); g != nil && g.Pkg == fn.Pkg {
+								mutable[g.Name()] = "map updated in " + f.Name()
+							}
+						case ssa.CallInstruction:
+							cc := x.Common()
+							vals := append([]ssa.Value{}, cc.Args...)
+							if cc.IsInvoke() {
+								vals = append(vals, cc.Value)
+							}
+							for _, a := range vals {
+								g, via := rootGlobal(a, false)
+								if g == nil || g.Pkg != fn.Pkg {
+									continue
+								}
+								if !via {
+									mutable[g.Name()] = "address passed to a call in " + f.Name()
+									continue
+								}
+								// a pointer / map / slice / channel loaded from the variable and handed to a call: what it
+								// refers to may be changed there (a cache object behind a pointer-typed variable)
+								switch a.Type().Underlying().(type) {
+								case *types.Pointer, *types.Map, *types.Slice, *types.Chan:
+									if _, seen := mutable[g.Name()]; !seen {
+										mutable[g.Name()] = "the object it refers to is handed to a call in " + f.Name()
+									}
+								}
+							}
+							if bi, ok := cc.Value.(*ssa.Builtin); ok && (bi.Name() == "delete" || bi.Name() == "clear") && len(cc.Args) > 0 {
+								if g, _ := rootGlobal(cc.Args[0], false); g != nil && g.Pkg == fn.Pkg {
+									mutable[g.Name()] = bi.Name() + " in " + f.Name()
+								}
+							}
+						}
+					}
+				}
+				for _, a := range f.AnonFuncs {
+					visit(a)
+				}
+			}
+			visit(fn)
+		}
 		for _, pk := range p.prog.AllPackages() {
 			if pk.Pkg.Path() != sc.Pkg {
 				continue
@@ -209,8 +291,8 @@ func (p *Program) runScan(sc *Scan) *UnitResult {
 						continue
 					}
 					have[n] = true
-					if !allowed[n] {
-						offenders = append(offenders, n+" ("+v.Type().String()+")")
+					if why, m := mutable[n]; m && !allowed[n] {
+						offenders = append(offenders, n+" ("+v.Type().String()+"; "+why+")")
 					}
 				}
 			}
@@ -224,7 +306,7 @@ func (p *Program) runScan(sc *Scan) *UnitResult {
 		}
 		if len(offenders) == 0 && len(stale) == 0 {
 			o.Status = "unsat"
-			o.Output = fmt.Sprintf("%s has exactly the %d listed package-level variables", sc.Pkg, len(have))
+			o.Output = fmt.Sprintf("every package-level variable of %s that can change after initialisation (%d of %d) is listed", sc.Pkg, len(mutable), len(have))
 		} else {
 			o.Status = "sat"
 			o.Output = ""
